@@ -14,7 +14,7 @@
 (* stream accepted so far (before \o seg), whatever its segmentation; the  *)
 (* other protocols are judged on a first segment that holds the request.   *)
 (***************************************************************************)
-EXTENDS Integers, Sequences, FiniteSets, TLC, Sig, Http, Ssh, Stun, Dns, Rpc, Smb
+EXTENDS Integers, Sequences, SequencesExt, FiniteSets, TLC, Sig, Http, Ssh, Stun, Dns, Rpc, Smb
 
 Cls(proto, ans, prop, why) == [ proto |-> proto, ans |-> ans, prop |-> prop, why |-> why ]
 
@@ -143,6 +143,8 @@ ClassifyTcp(before, seg, ctx) ==
                                  ELSE Cls(id, "mustnot", IF lb = 0 THEN "C16" ELSE "C11", "rpc-call-header-incomplete"))
             ELSE IF later /\ RpcCall(p, 4).ok /\ RpcCall(p, 4).mtype = << 0, 1 >> /\ lbp < RpcCall(p, 4).hdrend
                  THEN Cls(id, "mustnot", "C12", "rpc-reply-message-on-an-open-flow")
+            ELSE IF ~later /\ RpcHdrIncomplete(p, 4) /\ RmLast(p) /\ RmLen(p)[1] = 0
+                 THEN Cls(id, "mustnot", IF lb = 0 THEN "C16" ELSE "C11", "rpc-call-header-incomplete")
             ELSE IF RpcCleanCall(p, 4) THEN
                  LET c  == RpcCall(p, 4)
                      rl == RmLen(p)
@@ -201,7 +203,8 @@ ReplyTypedBy(transport, s) ==
 (* the source-port shifts the statements allow for this payload (C03, C15) *)
 AppPortShift(transport, before, seg) ==
     LET m == AppMsg(transport, before, seg) IN
-    IF before # << >> /\ ~(transport = "tcp" /\ SplitWhole(before, seg)) THEN { 0, 1 }
+    IF before # << >> /\ ~(transport = "tcp" /\ SplitWhole(before, seg))
+    THEN (IF RefId(before \o seg, FALSE) = "STUN" THEN { 0, 1 } ELSE { 0 })     \* only a STUN flow may shift
     ELSE IF RefId(m, transport = "udp") = "STUN" THEN StunShift(m)
          ELSE { 0 }
 
@@ -319,11 +322,14 @@ HttpCanon(r) ==
     IN IF d = 0 THEN r ELSE SubSeq(r, 1, d) \o SubSeq(r, LineEnd(r, d) + 1, Len(r))
 
 RECURSIVE DnsAnswersCanon(_, _, _)
-DnsAnswersCanon(r, o, k) ==      \* k answers from offset o: owner name, type, class, ttl of each
+DnsAnswersCanon(r, o, k) ==      \* k answers from offset o: everything but the RDLENGTH / RDATA of IN/A records
     IF k = 0 \/ o + 1 > Len(r) THEN << >>
     ELSE LET ne == IF r[o + 1] \div 64 = 3 THEN o + 2 ELSE NulEnd(r, o) IN
          IF ne = -1 \/ ne + 10 > Len(r) THEN << -1 >>
-         ELSE SubSeq(r, o + 1, ne + 8) \o DnsAnswersCanon(r, ne + 10 + DU16(r, ne + 8), k - 1)
+         ELSE LET nx == ne + 10 + DU16(r, ne + 8)
+                  isA == DU16(r, ne) = 1 /\ DU16(r, ne + 2) = 1
+              IN (IF isA \/ nx > Len(r) THEN SubSeq(r, o + 1, ne + 8) ELSE SubSeq(r, o + 1, nx))
+                 \o DnsAnswersCanon(r, nx, k - 1)
 
 DnsCanon(r) ==
     IF Len(r) < 12 THEN r
@@ -333,15 +339,60 @@ DnsCanon(r) ==
 
 ZeroAt(r, o, n) == [ i \in 1..Len(r) |-> IF i > o /\ i <= o + n THEN 0 ELSE r[i] ]
 
+(* STUN: the attributes that carry the observed address ((XOR-)MAPPED-ADDRESS) reduced to their *)
+(* type, and the message length (it depends on the address family); everything else kept       *)
+StunCanon(r) ==
+    LET w == StunWalk(r, 20, Len(r), << >>) IN
+    IF Len(r) < 20 \/ ~w.ok THEN r
+    ELSE SubSeq(r, 1, 2) \o SubSeq(r, 5, 20)
+         \o FoldLeft(LAMBDA acc, a : acc \o (IF a[1] \in { 1, 32 } THEN << 0, a[1] >>
+                                              ELSE SubSeq(r, a[3] - 3, IF a[3] + Pad4(a[2]) < Len(r) THEN a[3] + Pad4(a[2]) ELSE Len(r))),
+                     << >>, w.a)
+
+(* portmapper success bodies: the port word / universal address / netid reduced to a marker, *)
+(* programs, versions, protocols and owners kept                                             *)
+RECURSIVE DumpCanon2(_, _), DumpCanon34(_, _, _)
+DumpCanon2(r, o) ==          \* version 2 list: (1, prog, vers, prot, port)* 0
+    IF o + 4 > Len(r) THEN << -1 >>
+    ELSE IF RU32(r, o) = << 0, 0 >> THEN << 0 >>
+    ELSE IF o + 20 > Len(r) THEN << -1 >>
+    ELSE SubSeq(r, o + 1, o + 16) \o DumpCanon2(r, o + 20)
+DumpCanon34(r, o, n) ==      \* version 3/4 list: (1, prog, vers, netid, addr, owner)* 0
+    IF n > 32 \/ o + 4 > Len(r) THEN << -1 >>
+    ELSE IF RU32(r, o) = << 0, 0 >> THEN << 0 >>
+    ELSE LET netid == XdrString(r, o + 12)
+             addr  == IF netid.ok THEN XdrString(r, netid.next) ELSE netid
+             owner == IF addr.ok THEN XdrString(r, addr.next) ELSE addr
+         IN IF ~owner.ok THEN << -1 >>
+            ELSE SubSeq(r, o + 1, o + 12) \o SubSeq(r, addr.next + 1, owner.next) \o DumpCanon34(r, owner.next, n + 1)
+RpcBodyCanon(r, o) ==
+    IF Len(r) = o THEN << >>
+    ELSE IF Len(r) = o + 4 THEN << -2 >>                                         \* a port number
+    ELSE LET x == XdrString(r, o) IN
+         IF x.ok /\ x.next = Len(r) THEN << -3 >>                                \* a universal address
+         ELSE IF (Len(r) - o - 4) % 20 = 0 /\ RU32(r, Len(r) - 4) = << 0, 0 >>
+                 /\ \A k \in 0..((Len(r) - o - 4) \div 20 - 1) : RU32(r, o + 20 * k) = << 0, 1 >>
+         THEN DumpCanon2(r, o)
+         ELSE DumpCanon34(r, o, 0)
+
 AppCanon(transport, r) ==
     LET who == ResponderOf(transport, r) IN
     CASE who = "HTTP" -> HttpCanon(r)
-      [] who = "STUN" -> SubSeq(r, 1, 2) \o SubSeq(r, 5, 20)
+      [] who = "STUN" -> StunCanon(r)
       [] who = "DNS"  -> DnsCanon(r)
       [] who = "RPC"  -> LET ro == IF transport = "udp" /\ IsRpcReply(r, 0) THEN 0 ELSE 4 IN
                          IF Len(r) < ro + 24 THEN r
-                         ELSE IF RU32(r, ro + 20) = << 0, 0 >> THEN SubSeq(r, ro + 1, ro + 24)       \* success bodies carry the endpoint
+                         ELSE IF RU32(r, ro + 20) = << 0, 0 >>
+                         THEN SubSeq(r, ro + 1, ro + 24) \o RpcBodyCanon(r, ro + 24)               \* success bodies carry the endpoint
                          ELSE SubSeq(r, ro + 1, Len(r))
+      [] who = "SMB1" -> IF Len(r) >= 4 + 33 + 34 /\ S1Cmd(r) = 114 /\ r[4 + 33] = 17 THEN ZeroAt(r, 4 + 33 + 23, 8) ELSE r
+      [] who = "SMB2" -> IF Len(r) >= 4 + 64 + 64 /\ S2Cmd(r) = 0 THEN ZeroAt(r, 4 + 64 + 40, 16) ELSE r
+      [] OTHER -> r
+
+(* only the wall-clock fields masked (property C08 compares two runs of the same frame) *)
+ClockCanon(transport, r) ==
+    LET who == ResponderOf(transport, r) IN
+    CASE who = "HTTP" -> HttpCanon(r)
       [] who = "SMB1" -> IF Len(r) >= 4 + 33 + 34 /\ S1Cmd(r) = 114 /\ r[4 + 33] = 17 THEN ZeroAt(r, 4 + 33 + 23, 8) ELSE r
       [] who = "SMB2" -> IF Len(r) >= 4 + 64 + 64 /\ S2Cmd(r) = 0 THEN ZeroAt(r, 4 + 64 + 40, 16) ELSE r
       [] OTHER -> r
